@@ -9,7 +9,7 @@ import numpy as np
 import lasio
 from lasio import CurveItem, HeaderItem
 
-from ..core import canon, e1
+from ..core import canon, e1, inputs
 
 PROPERTY = "C03"
 LEVEL = "exploration"
@@ -33,7 +33,7 @@ ASSUMPTIONS = [
 MNEMS = ["A", "LONGMNEMONIC12", "A B", "Å1", "", "<dup>", "NULL"]
 UNITS = ["", "m", "K/M3", "hh:mm", "ft.lbf", "°C", "LONGUNIT123", "1/32", "10^3"]
 VALUES = ["", "x", "a b", "it's", "(b) c", "[b]", 12, -1.5, "1e3", 35.5, 7, "a value text 25 chars long", "rev 4,1-b", ("a remark of ninety characters " * 4)[:90].strip()]
-DESCRS = ["", "d", "a b", "(x) y", "2 d", "a thirty character description.."[:30]]
+DESCRS = ["", "d", "a b", "(x) y", "2 d", "a thirty character description.."[:30], "see remark 2..4", "to be continued.."]
 SECTIONS = ["Version", "Well", "Curves", "Parameter"]
 OTHERS = ["", "one line of text", "two lines\n\nwith an inner blank line", "#starts with hash\nsecond"]
 
@@ -198,6 +198,7 @@ def compare(pt, before, after, text, V, tag):
 
 
 def check_point(pt):
+    inputs.process_prelude()
     las = build(pt)
     before = snapshot(las)
     nontriv = any(str(u) or str(v) or str(d) for (_, u, v, d) in pt["items"])
